@@ -8,6 +8,11 @@ from scipy import sparse as sp
 from .env import L, load
 
 
+class MalformedResult(Exception):
+    """A value handed back by the library cannot be read as the quaternion array / matrix it is supposed to be (planes
+    of different shapes, wrong dtype, ...).  The runner reports it as a property failure, not as a harness error."""
+
+
 def Q(A):
     """(..., 4) float array -> fresh np.quaternion array."""
     return quaternion.as_quat_array(np.array(A, dtype=float, order="C", copy=True))
@@ -15,7 +20,10 @@ def Q(A):
 
 def F(Aq):
     """np.quaternion array -> fresh (..., 4) float array."""
-    return np.array(quaternion.as_float_array(Aq), dtype=float, copy=True)
+    try:
+        return np.array(quaternion.as_float_array(Aq), dtype=float, copy=True)
+    except Exception as e:  # noqa: BLE001
+        raise MalformedResult(f"not a quaternion array: {type(Aq).__name__} ({type(e).__name__}: {e})"[:300]) from e
 
 
 def S(A):
@@ -29,7 +37,14 @@ def S(A):
 
 def SF(Sm):
     """SparseQuaternionMatrix -> (m,n,4) float array."""
-    return np.stack([Sm.real.toarray(), Sm.i.toarray(), Sm.j.toarray(), Sm.k.toarray()], axis=-1).astype(float)
+    try:
+        planes = [np.asarray(p.toarray(), dtype=float) for p in (Sm.real, Sm.i, Sm.j, Sm.k)]
+        shp = tuple(getattr(Sm, "shape", planes[0].shape))
+        if any(p.shape != shp for p in planes):
+            raise ValueError(f"component planes of shapes {[p.shape for p in planes]} in a matrix that reports shape {shp}")
+        return np.stack(planes, axis=-1)
+    except Exception as e:  # noqa: BLE001
+        raise MalformedResult(f"malformed SparseQuaternionMatrix ({type(e).__name__}: {e})"[:300]) from e
 
 
 def to_float(X):
@@ -39,7 +54,10 @@ def to_float(X):
     X = np.asarray(X)
     if X.dtype == np.quaternion:
         return F(X)
-    return np.array(X, dtype=float)
+    try:
+        return np.array(X, dtype=float)
+    except Exception as e:  # noqa: BLE001
+        raise MalformedResult(f"not a numeric array: {type(X).__name__} ({type(e).__name__}: {e})"[:300]) from e
 
 
 def ahash(x):
